@@ -234,7 +234,10 @@ def check_case(case):
                 labels.append("garbage-twin")
         # object built from the accepted windows alone
         if np.array_equal(W, P):
-            alone = hv.HvsrTraditional(f, A[W])
+            if int(W.sum()) % 2:
+                alone = hv.HvsrTraditional(f, A[W])
+            else:       # the other public constructor
+                alone = hv.HvsrTraditional.from_hvsr_curves([hv.HvsrCurve(f, a) for a in A[W]])
             alone.update_peaks_bounded(tuple(cur_range), cur_kw)
             for dist in ("lognormal", "normal"):
                 keys = _stats_reference(f, A, W, P_f, P_a, dist, nstd).keys()
